@@ -23,6 +23,7 @@ RULE = ("undisturbed: (value length, client block size, CRC requested/supported,
         "Signature = (kind, length class, blksize, crc, fault class, position class); non-trivial = more than one segment "
         "or a fault.")
 RULE += (" " + 'Widened later: lengths whose last segment starts with a server command byte, all-zero values without announced size, buffer-reusing back end, wrong checksums with intact data, undisturbed follow-up upload after a failed one, partial acknowledges in undisturbed runs.')
+RULE += (" " + "Widened later: raw (unbuffered) streams are read with sizes 1..9 as well as 7.")
 ASSUMPTIONS = ["reference server retransmits from the first unacknowledged segment numbering from 1 (CiA 301)",
                "without CRC negotiated the property promises nothing about corrupted data (observation only)"]
 REQUIRED = {"undisturbed_compared": 100, "fault_cases_crc": 100, "server_frames_validated": 500}
